@@ -113,6 +113,7 @@ def directed_ts():
         out.append(("late-v2-netdata-" + tag, "x.ts", v2h + "[Network Data]\n" + nxt))
         out.append(("late-v2-nofreqs-" + tag, "x.ts", "[Version] 2.0\n# GHz Z RI R 50\n[Number of Ports] 1\n[Network Data]\n" + nxt))
         out.append(("late-v2-order-" + tag, "x.ts", "[Version] 2.0\n# GHz Z RI R 50\n[Number of Ports] 2\n[Number of Frequencies] 1\n[Network Data]\n" + nxt))
+        out.append(("late-v2-einval-" + tag, "x.ts", "[Version] 2.0\n# GHz Z RI R 50\n[Number of Ports] 65536\n[Number of Frequencies] 1\n[Network Data]\n" + nxt))
         out.append(("late-v2-ref-" + tag, "x.ts", "[Version] 2.0\n# GHz Z RI R 50\n[Number of Ports] 1\n[Number of Frequencies] 2\n[Reference] 75\n[Network Data]\n" + nxt))
     out.append(("dest-v2-partial", "x.ts", v2h + "[Network Data]\n1 0.5 0.25\n2 0.5\n"))
     out.append(("dest-v2-decreasing", "x.ts", v2h + "[Network Data]\n2 0.5 0.25\n1 0.5 0.25\n"))
@@ -123,6 +124,8 @@ def directed_ts():
     out.append(("dest-hdr-only", "x.s1p", opt))
     out.append(("dest-hdr-bad", "x.s1p", "# GHz S RI R 50 bogus\n1 0.5 0.25\n"))
     out.append(("dest-version3", "x.ts", "[Version] 3.0\n"))
+    out.append(("dest-r-nan", "x.s1p", "# GHz S RI R nan\n1 0.5 0.25\n"))
+    out.append(("dest-ref-nan", "x.ts", "[Version] 2.0\n# GHz S RI R 50\n[Number of Ports] 2\n[Reference] 50 nan\n"))
     for L in (62, 63, 64, 65, 126, 127, 128, 129, 254, 255, 256, 257):
         # a long word inside a data line, in the option line, as a keyword argument, as keyword text
         out.append(("word-data-%d" % L, "x.s1p", opt + "1 0.%s 0\n" % ("5" * (L - 2))))
@@ -150,7 +153,8 @@ def directed_npd():
     out.append(("npd-z0-0ports", "x.npd", "#:ports 0\n#:frequencies 1\n#:parameters Zinri\n#:z0\n1\n"))
     # the destination at the failure exits
     h2 = "#:ports 2\n#:frequencies 2\n#:parameters Sri\n"
-    out.append(("npd-dest-prec", "x.npd", "#:fprecision 3\n#:dprecision 0\n" + h2 + "1 1 2 3 4 5 6 7 8\n2 1 2 3 4 5 6 7 8\n"))
+    out.append(("npd-dest-prec0", "x.npd", "#:fprecision 3\n#:dprecision 0\n" + h2 + "1 1 2 3 4 5 6 7 8\n2 1 2 3 4 5 6 7 8\n"))
+    out.append(("npd-dest-prec", "x.npd", "#:fprecision 3\n#:dprecision 1\n" + h2 + "1 1 2 3 4 5 6 7 8\n2 1 2 3 4 5 6 7 8\n"))
     out.append(("npd-dest-prec-then-bad", "x.npd", "#:fprecision 9\n#:dprecision 1001\n" + h2))
     out.append(("npd-dest-params-bad", "x.npd", "#:ports 2\n#:frequencies 2\n#:parameters bogus\n"))
     out.append(("npd-dest-short-line", "x.npd", h2 + "1 1 2 3 4 5 6 7 8\n2 1 2 3\n"))
@@ -286,11 +290,18 @@ def run(ctx, inputs):
             else:
                 ctx.traces_validated += 1
             continue
+        macc = None
+        if " | ACC " in ml:
+            ml, _, macc = ml.rpartition(" | ACC ")
         if ml != core:
             mp, cp = ml.split(" | "), core.split(" | ")
             cls = "fault-in-model" if ml.startswith("FAULT") else \
                   ("outcome" if mp[0] != cp[0] else ("ledger" if mp[:4] != cp[:4] else "destination-model"))
             bad(cls, key, "model %s / C %s" % (ml, core), {"c": cl, "model": ml})
+            continue
+        if macc == "0":
+            bad("destination-call-refused", key, "a call the loader model records on the destination is refused by the container model "
+                "(index out of range, wrong vector length): in the C code that is an unchecked store; %s" % cl, {"c": cl, "model": ml})
             continue
         stats["compared"] += 1
         ctx.traces_validated += 1
